@@ -601,7 +601,41 @@ func c01Omit(c *Ctx, merge, leaf, ptrfy, pfield, omit *ssa.Function) {
 	}
 	kindAtom := "(reflect.Value).Kind(" + canon(fieldVal) + ")"
 	pb := &predBuilder{}
-	g := pb.pathCond(fi.Block(), lc.Block())
+	start := fi.Block()
+	if entry := loopBodyEntry(lc.Block()); entry != nil && entry != start && entry.Dominates(start) {
+		// the field value may be read only where it is needed (after the skip tests): the iteration starts at the
+		// entry of the loop body
+		start = entry
+	}
+	g := pb.pathCond(start, lc.Block())
+	// the kind may be read from the field's declared type (baseType.Field(i).Type.Kind()) instead of from the field
+	// value: for a struct field the two are the same kind
+	if fc, isCall := fieldVal.(*ssa.Call); isCall && calleeFullName(fc) == "(reflect.Value).Field" {
+		fbk, fik := map[string]bool{}, map[string]bool{}
+		atomsOf(g, fbk, fik)
+		if !fik[kindAtom] {
+			for _, i := range allInstrs(merge) {
+				kc, ok := i.(*ssa.Call)
+				if !ok || calleeFullName(kc) != "(reflect.Type).Kind" || !fik[canon(kc)] {
+					continue
+				}
+				// receiver: <StructField>.Type with the StructField = T.Field(same index), T = Type() of the base
+				okRecv := derivesAny(callArgs(kc)[0], func(y ssa.Value) bool {
+					tf, ok := y.(*ssa.Call)
+					if !ok || calleeFullName(tf) != "(reflect.Type).Field" || !sameValue(callArgs(tf)[1], fc.Call.Args[1]) {
+						return false
+					}
+					return derivesAny(callArgs(tf)[0], func(z ssa.Value) bool {
+						tc, ok := z.(*ssa.Call)
+						return ok && calleeFullName(tc) == "(reflect.Value).Type" && sameValue(tc.Call.Args[0], fc.Call.Args[0])
+					}, nil)
+				}, nil)
+				if okRecv {
+					kindAtom = canon(kc)
+				}
+			}
+		}
+	}
 	rows, counter := forAll(g, map[string][]int64{kindAtom: allKinds}, func(e env, fv bool) bool {
 		want := !e.B[omitAtom] && e.I[kindAtom] != kChan && e.I[kindAtom] != kFunc
 		return fv == want
